@@ -379,6 +379,14 @@ def cases(tier):
                         if preserve and (variant > 0 or len(nl) > 2):
                             continue
                         yield (variant, nl, ps, dm, preserve)
+    # a car named more than once in the list: it is applied again at every position, so the last mention wins over what stands in between
+    for variant in range(len(BASE_VARIANTS)):
+        for x, y in itertools.permutations(names if tier == "thorough" else CORE_CARS, 2):
+            for nl in ((x, y, x), (x, x, y), (y, x, x)):
+                for ps in ((), tuple(pk[:1])):
+                    if "data_paths" in ps:
+                        continue
+                    yield (variant, nl, ps, "default", False)
     yield (0, ("nope",), (), "default", False)
     yield (0, ("c1", "nope"), (), "default", False)
 
